@@ -67,6 +67,8 @@ class ProgramProperty:
         # test) are judged by the correspondence with the pure model and by the Lean spec checker; the property's own
         # laws speak about the program up to there
         # (phase-2 steps, appended after the tail, are kept: they query converters the tail does not touch)
+        if case.get("_scope"):
+            return []           # exhaustive small-scope cases (harness/smallscope.py): correspondence and Lean spec verdict only
         if not any(st.get("_tail") for st in case["steps"]):
             return self.laws(case, impl)
         keep = [i for i, st in enumerate(case["steps"]) if not st.get("_tail")]
